@@ -121,3 +121,68 @@ func runLinkTier(t *testing.T, rep *kit.Report, env kit.Env) {
 	}
 	rep.Add(evals, nontrivial, 0, transitions)
 }
+
+// (d2) both directions of one link session pair around their wraps: every
+// sequence of length L over {A seals, B seals} with both regular counters preset
+// so that A's wrap falls after ka and B's after kb frames. Every frame must
+// unseal at the other end at once, and must NOT unseal at the end that sealed
+// it (the two directions never share a key, before or after any rollover).
+func runLinkDuplexTier(t *testing.T, rep *kit.Report, env kit.Env) {
+	L := 6
+	if env.Thorough() {
+		L = 8
+	}
+	rep.Bounds["link_duplex_length"] = L
+	var evals, nontrivial, transitions int64
+	caseNo := 0
+	for ka := 0; ka <= 3; ka++ {
+		for kb := 0; kb <= 3; kb++ {
+			for code := 0; code < 1<<L; code++ {
+				caseNo++
+				if !env.Mine(caseNo) {
+					continue
+				}
+				la, lb := state.NewEncryptionSession(), state.NewEncryptionSession()
+				if err := kit.KeyPair(la, lb); err != nil {
+					panic(err)
+				}
+				ha := &state.EncryptionSessionTestHelper{EncryptionSession: la}
+				hb := &state.EncryptionSessionTestHelper{EncryptionSession: lb}
+				ra := uint32(int64(0xFFFFFFFF) - int64(ka))
+				rb := uint32(int64(0xFFFFFFFF) - int64(kb))
+				ha.ReglSetOut(ra)
+				_ = hb.ReglSeq().Check(ra)
+				hb.ReglSetOut(rb)
+				_ = ha.ReglSeq().Check(rb)
+				var evs []string
+				for i := 0; i < L; i++ {
+					from, to, name := la, lb, "A"
+					if code>>i&1 == 1 {
+						from, to, name = lb, la, "B"
+					}
+					evs = append(evs, name)
+					desc := fmt.Sprintf("link session pair, A's regular counter preset to %#x, B's to %#x, seal order %v", ra, rb, evs)
+					buf := make([]byte, peering.FrameOffset+30+peering.FrameOverhead)
+					copy(buf[peering.FrameOffset:], fmt.Sprintf("duplex-%d", i))
+					if err := peering.LinkFrame(buf).Seal(from); err != nil {
+						rep.Violate("link-duplex/seal-failed", fmt.Sprintf("Seal of frame %d failed: %v; %s", i, err, desc), desc)
+						break
+					}
+					transitions++
+					if err := peering.LinkFrame(append([]byte(nil), buf...)).Unseal(from); err == nil {
+						rep.Violate("link-duplex/reflected-frame-accepted", fmt.Sprintf("frame %d (seq %d) sealed by %s unseals at %s itself: the two directions share a key; %s", i, peering.LinkFrame(buf).SequenceNum(), name, name, desc), desc)
+						rep.Outcome("link-duplex/reflection-accepted!")
+					}
+					if err := peering.LinkFrame(append([]byte(nil), buf...)).Unseal(to); err != nil {
+						rep.Violate("link-duplex/in-order-rejected", fmt.Sprintf("frame %d (seq %d) sealed by %s and delivered at once does not unseal: %v; %s", i, peering.LinkFrame(buf).SequenceNum(), name, err, desc), desc)
+						break
+					}
+				}
+				evals++
+				nontrivial++
+				rep.Outcome("link-duplex/ok")
+			}
+		}
+	}
+	rep.Add(evals, nontrivial, 0, transitions)
+}
